@@ -4,6 +4,7 @@ import (
 	"encoding/json"
 	"os"
 	"path/filepath"
+	"regexp"
 	"sort"
 	"strings"
 
@@ -191,6 +192,38 @@ func armPaths(p *Program, fn *ssa.Function, start *ssa.BasicBlock, stop map[*ssa
 	return res
 }
 
+var constMergeRe = regexp.MustCompile(`Phi\(("[^"]*"(?:, "[^"]*")+)\)`)
+
+// expandConstMerges: a reply argument that is a merge of string constants
+// (result := "yes"; if !ok { result = "no" }) stands for one outcome per
+// constant, the same as writing the reply once per branch.
+func expandConstMerges(keys []string) []string {
+	if keys == nil {
+		return nil
+	}
+	set := map[string]bool{}
+	var expand func(k string)
+	expand = func(k string) {
+		m := constMergeRe.FindStringSubmatchIndex(k)
+		if m == nil {
+			set[k] = true
+			return
+		}
+		for _, c := range strings.Split(k[m[2]:m[3]], ", ") {
+			expand(k[:m[0]] + c + k[m[1]:])
+		}
+	}
+	for _, k := range keys {
+		expand(k)
+	}
+	var out []string
+	for k := range set {
+		out = append(out, k)
+	}
+	sort.Strings(out)
+	return out
+}
+
 func loadProtocol(r *Result) map[string]map[string][]string {
 	b, err := os.ReadFile(filepath.Join(verifDir, "spec", "protocol.json"))
 	if err != nil {
@@ -318,7 +351,7 @@ func runC16(p *Program, r *Result) {
 		}
 		sort.Strings(names)
 		for _, a := range names {
-			g, w := strings.Join(got[a], " | "), strings.Join(want[a], " | ")
+			g, w := strings.Join(expandConstMerges(got[a]), " | "), strings.Join(expandConstMerges(want[a]), " | ")
 			switch {
 			case want[a] == nil:
 				r.Bad(fn.String(), "arm:"+a, "", "the client handles command \""+a+"\", which the protocol table does not list: "+g)
